@@ -927,7 +927,12 @@ impl<C: Curve> VecComEqI<C> {
         let h = gens.next(u, tr, "h");
         let g_bar = gens.next(u, tr, "g_bar");
         let h_bar = gens.next(u, tr, "h_bar");
-        let n = size(u, tr, "n", 1, big).min(256);
+        let mut n = size(u, tr, "n", 1, big).min(256);
+        // the index type is u8: 256 generators is the largest statement, position 255 the last index
+        if n == big && gen::ratio(u, 1, 3) {
+            n = if gen::boolean(u) { 256 } else { 255 };
+            tr.size("n(boundary)", n);
+        }
         let r = scalar::<C>(u, tr, "r");
         let mut comm = h.mul_by_scalar(&r);
         let (mut gis, mut xis) = (vec![], vec![]);
